@@ -2,6 +2,12 @@
 // MultiMapStorage<u64, u64> (through the cfg(agdb_verif) wrapper agdb::verif::VMultiMap, hook H1) with the
 // whole slot array dumped after every operation; the same lines are run through the extracted
 // coq/theories/OpenMap.v model (extract/omap).  Needs the cargo feature `h1_multimap`.
+//
+// Spec-level oracle (coq/theories/OpenMapSpec.v, the specification OpenMap.v is PROVED to refine): every
+// history is also run on a plain shadow multimap (a Vec of (key, value) pairs, no hashing); after every
+// operation the result of the operation, `len`, the iteration (Valid slots as a multiset), and `value` /
+// `values` of the operation's key and of a second live key must be what the shadow allows
+// (values compared as multisets).  Any difference = oracle line of class `map-spec-mismatch` with the history.
 use crate::rng::Rng;
 use agdb::verif::VMultiMap;
 use std::collections::BTreeMap;
@@ -33,6 +39,131 @@ fn dump(m: &VMultiMap) -> String {
     }
 }
 
+fn hx(s: &str) -> u64 {
+    u64::from_str_radix(s, 16).expect("hex")
+}
+
+fn sorted(mut v: Vec<u64>) -> Vec<u64> {
+    v.sort();
+    v
+}
+
+/// the abstract multimap of OpenMapSpec.v
+#[derive(Default)]
+pub struct Shadow(pub Vec<(u64, u64)>);
+
+impl Shadow {
+    fn values(&self, k: u64) -> Vec<u64> {
+        self.0.iter().filter(|p| p.0 == k).map(|p| p.1).collect()
+    }
+    fn remove_one(&mut self, k: u64, v: u64) -> bool {
+        match self.0.iter().position(|p| *p == (k, v)) {
+            Some(i) => { self.0.remove(i); true }
+            None => false,
+        }
+    }
+    /// lookups of key k on the real map against the shadow; None = agree
+    fn check_lookups(&self, m: &VMultiMap, k: u64) -> Option<String> {
+        let want = sorted(self.values(k));
+        match m.values(k) {
+            Err(e) => return Some(format!("values({:x}) failed: {}", k, e.description)),
+            Ok(l) => {
+                if sorted(l.clone()) != want {
+                    return Some(format!("values({:x}) = {:x?}, stored values of the key = {:x?}", k, l, want));
+                }
+            }
+        }
+        match m.value(k) {
+            Err(e) => Some(format!("value({:x}) failed: {}", k, e.description)),
+            Ok(None) if !want.is_empty() => Some(format!("value({:x}) = None (contains = false), stored values of the key = {:x?}", k, want)),
+            Ok(Some(x)) if !want.contains(&x) => Some(format!("value({:x}) = {:x}, stored values of the key = {:x?}", k, x, want)),
+            _ => None,
+        }
+    }
+    /// len and iteration of the real map against the shadow
+    fn check_whole(&self, m: &VMultiMap) -> Option<String> {
+        if m.len() != self.0.len() as u64 {
+            return Some(format!("len = {}, the multimap holds {} pairs", m.len(), self.0.len()));
+        }
+        match m.slots() {
+            Err(e) => Some(format!("iteration failed: {}", e.description)),
+            Ok(sl) => {
+                let mut it: Vec<(u64, u64)> = sl.iter().filter(|s| s.0 == 1).map(|s| (s.1, s.2)).collect();
+                it.sort();
+                let mut want = self.0.clone();
+                want.sort();
+                if it != want { Some(format!("iteration yields {:x?}, the multimap holds {:x?}", it, want)) } else { None }
+            }
+        }
+    }
+}
+
+/// one operation line on the real map and on the shadow: (implementation result line, spec mismatch)
+pub fn exec_line(m: &mut VMultiMap, sh: &mut Shadow, line: &str) -> (String, Option<String>) {
+    let t: Vec<&str> = line.split(' ').collect();
+    let mut bad: Option<String> = None;
+    let res = match t[0] {
+        "ins" => {
+            let (k, v) = (hx(t[1]), hx(t[2]));
+            let r = m.insert(k, v).map(|_| "ok".to_string());
+            if r.is_ok() { sh.0.push((k, v)); }
+            r
+        }
+        "ior" => {
+            let (k, v) = (hx(t[1]), hx(t[3]));
+            let only = if t[2] == "-" { None } else { Some(hx(t[2])) };
+            let r = m.insert_or_replace(k, only, v);
+            if let Ok(ret) = &r {
+                let cand: Vec<u64> = sh.values(k).into_iter().filter(|x| only.is_none_or(|o| *x == o)).collect();
+                match ret {
+                    Some(old) => {
+                        if !cand.contains(old) {
+                            bad = Some(format!("insert_or_replace({:x}) returned {:x}, replaceable stored values = {:x?}", k, old, cand));
+                        }
+                        sh.remove_one(k, *old);
+                    }
+                    None => {
+                        if !cand.is_empty() {
+                            bad = Some(format!("insert_or_replace({:x}) returned None, replaceable stored values = {:x?}", k, cand));
+                        }
+                    }
+                }
+                sh.0.push((k, v));
+            }
+            r.map(|r| format!("ok {}", r.map(|x| format!("{:x}", x)).unwrap_or("-".into())))
+        }
+        "rk" => {
+            let k = hx(t[1]);
+            let r = m.remove_key(k).map(|_| "ok".to_string());
+            if r.is_ok() { sh.0.retain(|p| p.0 != k); }
+            r
+        }
+        "rv" => {
+            let (k, v) = (hx(t[1]), hx(t[2]));
+            let r = m.remove_value(k, v).map(|_| "ok".to_string());
+            if r.is_ok() { sh.remove_one(k, v); }
+            r
+        }
+        "reserve" => m.reserve(hx(t[1])).map(|_| "ok".to_string()),
+        "value" => {
+            let k = hx(t[1]);
+            m.value(k).map(|r| r.map(|x| format!("{:x}", x)).unwrap_or("-".into()))
+        }
+        "values" => {
+            let k = hx(t[1]);
+            m.values(k).map(|l| format!("[{}]", l.iter().map(|x| format!("{:x}", x)).collect::<Vec<_>>().join(" ")))
+        }
+        _ => panic!("omap: bad line {}", line),
+    };
+    if res.is_ok() && bad.is_none() {
+        bad = sh.check_whole(m);
+    }
+    if res.is_ok() && bad.is_none() && t[0] != "reserve" {
+        bad = sh.check_lookups(m, hx(t[1]));
+    }
+    (res.unwrap_or_else(|e| format!("err {}", e.description)), bad)
+}
+
 // keys: small dense ids, colliding families (same residue mod 64/128/256), and arbitrary u64
 fn gen_key(r: &mut Rng, pool: &[u64]) -> u64 {
     match r.below(10) {
@@ -44,56 +175,85 @@ fn gen_key(r: &mut Rng, pool: &[u64]) -> u64 {
     }
 }
 
+// the colliding family of mode 3: three residues modulo 64 (= modulo every capacity), 40 keys each
+fn gen_colliding(r: &mut Rng, a: u64) -> u64 {
+    [a, a + 1, 63][r.below(3) as usize] + 64 * r.below(40)
+}
+
 pub fn run_history(rng: &mut Rng, steps: usize, o: &mut Out) {
     o.histories += 1;
     let mut m = VMultiMap::new().expect("map");
+    let mut sh = Shadow::default();
     o.cases.push("reset 111".into());
     o.imp.push("ok".into());
     let mut pool: Vec<u64> = vec![0];
     let mut log: Vec<String> = vec![];
-    let (mut grew, mut shrank, mut full_cycles) = (false, false, 0u64);
+    let (mut grew, mut shrank, mut full_cycles, mut collide_full) = (false, false, 0u64, 0u64);
+    let mut mismatch = false;
     let n = 1 + rng.below(steps as u64) as usize;
-    let mut mode = 0u64; // 0 grow, 1 shrink, 2 churn (insert / remove balanced: fills the table with tombstones)
+    // 0 grow, 1 shrink, 2 churn (insert / remove balanced: fills the table with tombstones),
+    // 3 removal-heavy churn over COLLIDING keys that stays at capacity 64 (long probe chains through tombstones)
+    let mut mode = 0u64;
+    let sticky3 = rng.chance(1, 5); // one history in five is mode 3 throughout
+    let resid = rng.below(60);
     for si in 0..n {
-        if si % 40 == 0 { mode = rng.below(3); }
+        if si % 40 == 0 { mode = if sticky3 { 3 } else { rng.below(4) }; }
         let cap_before = m.capacity();
-        let k = gen_key(rng, &pool);
+        let k = if mode == 3 { gen_colliding(rng, resid) } else { gen_key(rng, &pool) };
         let v = rng.below(4);
         // weights: ins ior rk rv reserve value values
-        let w: [u64; 7] = match mode { 0 => [10, 10, 2, 2, 1, 2, 2], 1 => [2, 3, 9, 9, 0, 2, 2], _ => [5, 9, 7, 7, 0, 1, 1] };
+        let mut w: [u64; 7] = match mode { 0 => [10, 10, 2, 2, 1, 2, 2], 1 => [2, 3, 9, 9, 0, 2, 2], 2 => [5, 9, 7, 7, 0, 1, 1], _ => [7, 6, 6, 9, 0, 2, 3] };
+        if mode == 3 && m.len() >= 56 { w[0] = 0; w[1] = 1; }
         let mut x = rng.below(w.iter().sum());
         let mut op = 0;
         while x >= w[op] { x -= w[op]; op += 1; }
         let live = !pool.is_empty() && rng.chance(3, 4);
         let k = if (op == 2 || op == 3 || op >= 5) && live { *rng.pick(&pool) } else { k };
-        let (line, res) = match op {
-            0 => { pool.push(k); (format!("ins {:x} {:x}", k, v), m.insert(k, v).map(|_| "ok".to_string())) }
+        // remove_value of a value that is actually stored, most of the time
+        let v = if op == 3 && rng.chance(2, 3) { sh.values(k).first().copied().unwrap_or(v) } else { v };
+        let line = match op {
+            0 => { pool.push(k); format!("ins {:x} {:x}", k, v) }
             1 => {
                 pool.push(k);
                 let only = if rng.chance(2, 3) { None } else { Some(rng.below(4)) };
-                (format!("ior {:x} {} {:x}", k, only.map(|x| format!("{:x}", x)).unwrap_or("-".into()), v),
-                 m.insert_or_replace(k, only, v).map(|r| format!("ok {}", r.map(|x| format!("{:x}", x)).unwrap_or("-".into()))))
+                format!("ior {:x} {} {:x}", k, only.map(|x| format!("{:x}", x)).unwrap_or("-".into()), v)
             }
-            2 => (format!("rk {:x}", k), m.remove_key(k).map(|_| "ok".to_string())),
-            3 => (format!("rv {:x} {:x}", k, v), m.remove_value(k, v).map(|_| "ok".to_string())),
-            4 => { let c = rng.below(300); (format!("reserve {:x}", c), m.reserve(c).map(|_| "ok".to_string())) }
-            5 => (format!("value {:x}", k), m.value(k).map(|r| r.map(|x| format!("{:x}", x)).unwrap_or("-".into()))),
-            _ => (format!("values {:x}", k), m.values(k).map(|l| format!("[{}]", l.iter().map(|x| format!("{:x}", x)).collect::<Vec<_>>().join(" ")))),
+            2 => format!("rk {:x}", k),
+            3 => format!("rv {:x} {:x}", k, v),
+            4 => format!("reserve {:x}", rng.below(300)),
+            5 => format!("value {:x}", k),
+            _ => format!("values {:x}", k),
         };
         if pool.len() > 400 { pool.remove(0); }
-        let res = res.unwrap_or_else(|e| format!("err {}", e.description));
+        let (res, mut bad) = exec_line(&mut m, &mut sh, &line);
+        // a second key, untouched by the operation: still found / still absent
+        if bad.is_none() && !res.starts_with("err") {
+            let k2 = if rng.chance(3, 4) { *rng.pick(&pool) } else { gen_key(rng, &pool) };
+            bad = sh.check_lookups(&m, k2);
+        }
         *o.stats.entry(format!("op:{}", line.split(' ').next().unwrap())).or_insert(0) += 1;
+        *o.stats.entry("spec-checked-steps".into()).or_insert(0) += 1;
+        if mode == 3 { *o.stats.entry("step:colliding-removal-heavy".into()).or_insert(0) += 1; }
         log.push(line.clone());
         o.cases.push(line);
         o.imp.push(res);
         o.cases.push("dump".into());
         let d = dump(&m);
+        if let Some(b) = bad {
+            if !mismatch {
+                o.oracle.push(format!("map-spec-mismatch {} history=[{}]", b, log.join(" ;; ")));
+            }
+            mismatch = true;
+        }
         // direct oracle: len = number of valid slots < capacity
         let valid = d.split(' ').skip(2).filter(|s| s.contains(':')).count() as u64;
         if valid != m.len() || (m.capacity() > 0 && m.len() >= m.capacity()) {
             o.oracle.push(format!("omap-invariant len={} valid={} capacity={} history=[{}]", m.len(), valid, m.capacity(), log.join(" ;; ")));
         }
-        if !d.split(' ').skip(2).any(|s| s == "e") && m.capacity() > 0 { full_cycles += 1; }
+        if !d.split(' ').skip(2).any(|s| s == "e") && m.capacity() > 0 {
+            full_cycles += 1;
+            if mode == 3 { collide_full += 1; }
+        }
         o.imp.push(d);
         if m.capacity() > cap_before && cap_before >= 64 { grew = true; }
         if m.capacity() < cap_before { shrank = true; }
@@ -101,6 +261,31 @@ pub fn run_history(rng: &mut Rng, steps: usize, o: &mut Out) {
     if grew { *o.stats.entry("history:grew".into()).or_insert(0) += 1; }
     if shrank { *o.stats.entry("history:shrank".into()).or_insert(0) += 1; }
     if full_cycles > 0 { *o.stats.entry("history:reached-table-without-empty-slot".into()).or_insert(0) += 1; }
+    if collide_full > 0 { *o.stats.entry("history:colliding-keys-table-without-empty-slot".into()).or_insert(0) += 1; }
     if grew && shrank { o.nontrivial += 1; }
     if o.samples.len() < 3 { o.samples.push(log.iter().take(8).cloned().collect::<Vec<_>>().join(" ;; ")); }
+}
+
+/// replay operation lines (one per line; `reset ...` and `dump` lines are skipped) on the real map with the
+/// spec-level oracle; prints one line per operation
+pub fn replay(lines: &[String], o: &mut Out) {
+    let mut m = VMultiMap::new().expect("map");
+    let mut sh = Shadow::default();
+    let mut log: Vec<String> = vec![];
+    o.histories += 1;
+    for line in lines {
+        let line = line.trim();
+        if line.is_empty() || line == "dump" || line.starts_with("reset") || line.starts_with('#') { continue; }
+        let (res, bad) = exec_line(&mut m, &mut sh, line);
+        log.push(line.to_string());
+        o.cases.push(line.to_string());
+        o.imp.push(res.clone());
+        println!("{} -> {}   [len {} capacity {}]", line, res, m.len(), m.capacity());
+        if let Some(b) = bad {
+            println!("  map-spec-mismatch: {}", b);
+            o.oracle.push(format!("map-spec-mismatch {} history=[{}]", b, log.join(" ;; ")));
+        }
+        o.cases.push("dump".into());
+        o.imp.push(dump(&m));
+    }
 }
